@@ -188,7 +188,8 @@ Definition build_reply (start : Res scte) (ops : list sig_op) : val :=
   vres (fun s0 =>
     let s1 := run_script s0 ops in
     let (out, s2) := update_data s1 in
-    VL [VB out; view_scte s2; VB (s_data s1); VB (s_data s2)]) start.
+    VL [VB out; view_scte s2; VB (s_data s1); VB (s_data s2);
+        vres view_scte (new_scte35 (0 :: out))]) start.   (* decoding what was just encoded, pointer_field 0 *)
 
 Open Scope string_scope.
 Definition ops : list op := [
